@@ -656,7 +656,17 @@ def b_const_map(eng, n, st):
     return Val(z3.K(m.ty.k.sort(), v.t), m.ty)
 
 
+def b_members(eng, n, st):
+    """members(S): (ghost) the enumeration of a set in its iteration order, the one a later `for x in S` over the same set value uses"""
+    v = eng.ev(n.args[0], st)
+    if not isinstance(v.ty, SetT):
+        raise Unsupported("members() of %s" % v.ty)
+    seq, _pos = key_order(eng, v.t, v.ty.elt, st)
+    return seq
+
+
 BUILTINS = {
+    "members": b_members,
     "const_map": b_const_map,
     "keypos_n": b_keypos_n, "keyseq_n": b_keyseq_n,
     "last_keypos": b_last_keypos,
